@@ -101,14 +101,19 @@ type hijackableBody struct {
 	// either when Read() errors, or when Close() is called.
 	reqDone       chan<- struct{}
 	reqDoneClosed bool
+
+	// the context of the request (nil for hijacked streams): when it has ended, a failing Read
+	// reports its error, like RoundTrip does
+	ctx context.Context
 }
 
 var _ io.ReadCloser = &hijackableBody{}
 
-func newResponseBody(str *stream, contentLength int64, done chan<- struct{}) *hijackableBody {
+func newResponseBody(ctx context.Context, str *stream, contentLength int64, done chan<- struct{}) *hijackableBody {
 	return &hijackableBody{
 		body:    *newBody(str, contentLength),
 		reqDone: done,
+		ctx:     ctx,
 	}
 }
 
@@ -116,6 +121,10 @@ func (r *hijackableBody) Read(b []byte) (int, error) {
 	n, err := r.body.Read(b)
 	if err != nil {
 		r.requestDone()
+		if err != io.EOF && r.ctx != nil && r.ctx.Err() != nil {
+			// the stream was cancelled because the request's context ended
+			return n, r.ctx.Err()
+		}
 	}
 	return n, maybeReplaceError(err)
 }
